@@ -60,6 +60,9 @@ pub fn exec_cmd_stub(push_state: &mut PushState, c: &InstructionCache) {
     }
 }
 
+pub const USER_INSTRUCTIONS: [&str; 3] = ["SENSOR.READ", "MyInstruction", "X.Y.Z"];
+fn user_noop(_s: &mut PushState, _c: &InstructionCache) {}
+
 pub struct Machine {
     pub iset: InstructionSet,
     pub icache: InstructionCache,
@@ -72,6 +75,12 @@ impl Machine {
         iset.load();
         if stub_cmd {
             iset.add("EXEC.CMD".to_string(), Instruction::new(exec_cmd_stub));
+        }
+        // instructions added by the user through InstructionSet::add (README): no-ops with names
+        // outside the built-in TYPE.OP families, so that "registered instruction" is exercised
+        // for names the library did not load itself
+        for n in USER_INSTRUCTIONS.iter() {
+            iset.add(n.to_string(), Instruction::new(user_noop));
         }
         let icache = iset.cache();
         Machine { iset, icache }
